@@ -95,6 +95,16 @@ InsertRow(t, y, r, n) ==
     IF y >= Height(t) THEN AppendRow(PadRows(t, y), r, n)
     ELSE Widen([t EXCEPT !.rows = Take(@, y) \o Rep(r, n) \o Drop(@, y)], Len(r))
 
+(* extend_rows(rows): the rows are appended as they are, then the columns   *)
+(* grow to the widest row (no column is declared for rows without cells)   *)
+RECURSIVE ExpandRows(_)
+ExpandRows(rs) == IF rs = <<>> THEN <<>> ELSE Rep(Head(rs).r, Head(rs).n) \o ExpandRows(Tail(rs))
+ExtendRows(t, rs) ==
+    LET rows == t.rows \o ExpandRows(rs)
+        ws == {Len(rows[i]) : i \in 1..Len(rows)}
+        w == Max(Len(t.cols), IF ws = {} THEN 0 ELSE CHOOSE m \in ws : \A v \in ws : v <= m)
+    IN [rows |-> rows, cols |-> PadTo(t.cols, w, 0)]
+
 DeleteRow(t, y) == [t EXCEPT !.rows = SeqDel(@, y)]
 
 RowAt(t, y) == IF y < Height(t) THEN t.rows[y + 1] ELSE <<>>
@@ -259,6 +269,8 @@ Apply(t, o) ==
       [] o.op = "set_column_cells" -> SetColumnCells(t, o.x, o.r)
       [] o.op = "transpose"       -> Transpose(t)
       [] o.op = "rstrip"          -> RStrip(t, o.c = 1)
+      [] o.op = "clear"           -> EmptyTable
+      [] o.op = "extend_rows"     -> ExtendRows(t, o.rs)
       [] o.op = "read"            -> t
 
 ApplyRow(r, o) ==
@@ -268,5 +280,6 @@ ApplyRow(r, o) ==
       [] o.op = "row_delete_cell" -> RowDeleteCell(r, o.x)
       [] o.op = "row_set_values"  -> RowSetMany(r, o.x, o.r)
       [] o.op = "row_rstrip"      -> RowRStrip(r, o.c = 1)
+      [] o.op = "row_clear"       -> <<>>
 
 =============================================================================
